@@ -98,9 +98,13 @@ type Scen struct {
 	// Hold: "u" or "u:idx" of a user function whose body blocks until the runner releases it; the runner
 	// cancels the context once that body has started and releases it only after the directive has returned
 	// (or after 1.5 s): the directive must return promptly, without waiting for the running function (C09).
-	Hold    string `json:"hold"`
-	EffConc int    `json:"effconc"` // effective concurrency limit (filled by the driver)
-	EffCoe  bool   `json:"effcoe"`
+	Hold string `json:"hold"`
+	// Barrier: capacity probe (C03): every user function that depends on nothing (parallel tasks, slice and map
+	// elements, flow tasks fed by Params only) waits until min(limit, number of such functions) of them are in
+	// flight at once, or 1.5 s; the most that were ever in flight together is logged as a "capacity" event.
+	Barrier bool `json:"barrier"`
+	EffConc int  `json:"effconc"` // effective concurrency limit (filled by the driver)
+	EffCoe  bool `json:"effcoe"`
 }
 
 type ctxKey struct{}
@@ -123,6 +127,11 @@ type X struct {
 	ferr     map[int]error // leaf -> error passed to FlowError/ParallelError
 	units    map[int]*Unit
 	InBody   int32
+	barNeed  int32
+	inBar    int32
+	maxBar   int32
+	barFull  chan struct{}
+	barOnce  sync.Once
 	holdc    chan struct{}
 	heldc    chan struct{}
 	heldOnce sync.Once
@@ -134,13 +143,67 @@ type X struct {
 
 // NewX prepares an execution.
 func NewX(exec int, p *Prog, s *Scen) *X {
-	x := &X{Exec: exec, P: p, S: s, holdc: make(chan struct{}), heldc: make(chan struct{}), errs: map[string]error{}, pvals: map[string]interface{}{}, ferr: map[int]error{}, units: map[int]*Unit{}}
+	x := &X{Exec: exec, P: p, S: s, barFull: make(chan struct{}), holdc: make(chan struct{}), heldc: make(chan struct{}), errs: map[string]error{}, pvals: map[string]interface{}{}, ferr: map[int]error{}, units: map[int]*Unit{}}
 	for i := range p.Units {
 		x.units[p.Units[i].ID] = &p.Units[i]
 	}
 	base := context.WithValue(context.Background(), ctxKey{}, x)
 	x.ctx, x.cancel = context.WithCancel(base)
 	return x
+}
+
+// independent reports whether unit u depends on no other user function.
+func (x *X) independent(u int) bool {
+	un := x.units[u]
+	if un == nil {
+		return false
+	}
+	switch un.Kind {
+	case "ptask", "selem", "melem":
+		return true
+	case "task":
+		if un.Pred != 0 {
+			return false
+		}
+		for _, ty := range un.Ins {
+			isParam := false
+			for _, p := range x.P.Params {
+				if p == ty {
+					isParam = true
+				}
+			}
+			if !isParam {
+				return false
+			}
+		}
+		return true
+	}
+	return false
+}
+
+// PrepareBarrier computes how many independent functions must be in flight together.
+func (x *X) PrepareBarrier() {
+	if !x.S.Barrier {
+		return
+	}
+	n := 0
+	for i := range x.P.Units {
+		u := &x.P.Units[i]
+		if !x.independent(u.ID) {
+			continue
+		}
+		if u.Kind == "selem" || u.Kind == "melem" {
+			if u.Len > 0 {
+				n += u.Len
+			}
+		} else {
+			n++
+		}
+	}
+	if n > x.S.EffConc {
+		n = x.S.EffConc
+	}
+	x.barNeed = int32(n)
 }
 
 // MakeBare switches the execution to bare mode (see X.Bare).
@@ -376,6 +439,23 @@ func (x *X) enter(u, idx int, ctx context.Context, toks []int) {
 	if x.S.Cancel == "unit" && x.S.CancelU == key(u, idx) {
 		x.Cancel()
 	}
+	if x.S.Barrier && !x.Bare && x.barNeed > 0 && x.independent(u) {
+		n := atomic.AddInt32(&x.inBar, 1)
+		for {
+			m := atomic.LoadInt32(&x.maxBar)
+			if n <= m || atomic.CompareAndSwapInt32(&x.maxBar, m, n) {
+				break
+			}
+		}
+		if n >= x.barNeed {
+			x.barOnce.Do(func() { close(x.barFull) })
+		}
+		select {
+		case <-x.barFull:
+		case <-time.After(1500 * time.Millisecond):
+		}
+		atomic.AddInt32(&x.inBar, -1)
+	}
 	if x.S.Hold != "" && x.S.Hold == key(u, idx) && !x.Bare {
 		x.heldOnce.Do(func() { close(x.heldc) })
 		select {
@@ -440,6 +520,9 @@ func (x *X) Elem(u int, ctx context.Context, idx int, toks ...int) error {
 func (x *X) Ret(err error, results ...int) {
 	if x.Bare {
 		return
+	}
+	if x.S.Barrier && x.barNeed > 0 {
+		x.add(Ev{Ev: "capacity", K: int(atomic.LoadInt32(&x.maxBar)), Idx: int(x.barNeed), G: vt.GoID()})
 	}
 	kind, toks := x.classify(err)
 	x.add(Ev{Ev: "ret", Kind: kind, Errs: toks, Toks: results, G: vt.GoID()})
